@@ -14,5 +14,18 @@ CHECKS = {
   'note': TB + "Modelled: CPython int()/str(), isoformat, regex matching as transcribed; lxml XMLSchema is the XSD oracle.",
   'technique': 'Coq proof over Gallina model + generated tables; differential correspondence',
  },
+ 'C05': {
+  'text': "Theorems, for all customised attribute sets and all integers, that the validate_native functions regenerated "
+          "from the source on every run equal the specification (range facets, hardware bounds, enumeration, nillability), "
+          "that the text-protocol and number-protocol enforcement paths give the same verdict for the same logical value, "
+          "and that occurrence counting gives the same verdict over XML and dict documents and is exactly min<=n<=max; "
+          "the path models are tied to /repo by differential evaluation and an end-to-end oracle drives generated services "
+          "through all six protocol families at every nesting position.",
+  'design_ref': 'DESIGN.md section 6 (C05)',
+  'note': TB + "Proved for the integer family, None handling and occurrence counting; Unicode length/pattern/enumeration, "
+          "lexical well-formedness of date/time/boolean literals are decided by the end-to-end oracle against a Python "
+          "reference predicate and lxml's XSD validator (listed findings in known_findings.json).",
+  'technique': 'Coq proof over source-generated validation functions + differential correspondence + e2e oracle',
+ },
 }
 NOT_APPLICABLE = {}
